@@ -164,7 +164,10 @@ Qed.
 Lemma dict_of_nodup l : nodup_keys (map fst l) = true -> dict_of l = l.
 Proof. intro H. unfold dict_of. rewrite dict_of_acc; [reflexivity|]. apply nodup_keys_NoDup; exact H. Qed.
 
-Lemma convert_value_classes_pin : convert_value_classes = [1; 2; 3].
+(* eject.py since repair 88905cd: zone, list, inline map, HOLOGRAPHIC VALUE (4), NESTED META DICT (5) *)
+Lemma convert_value_classes_pin : convert_value_classes = [1; 2; 3; 4; 5].
+Proof. reflexivity. Qed.
+Lemma format_markdown_value_classes_pin : format_markdown_value_classes = [1; 2; 3; 4; 5].
 Proof. reflexivity. Qed.
 Lemma convert_node_classes_pin : convert_node_classes = [1; 2].
 Proof. reflexivity. Qed.
@@ -199,11 +202,11 @@ Proof.
   - (* list *)
     cbn [convert_value memb existsb N.eqb Pos.eqb orb]. cbn [nodup_v] in Hn.
     destruct l as [|x r]; [reflexivity|].
-    assert (Forall (fun y => items_j (convert_value [1; 2; 3] y) = items_v y) (x :: r)) as HF.
+    assert (Forall (fun y => items_j (convert_value [1; 2; 3; 4; 5] y) = items_v y) (x :: r)) as HF.
     { rewrite Forall_forall in *. intros y Hy. apply H; [exact Hy|]. rewrite forallb_forall in Hn. auto. }
     change (items_v (VList (x :: r))) with (([] : path, CNode) :: idx_items items_v 0 (x :: r)).
-    change (items_j (JList (map (convert_value [1; 2; 3]) (x :: r))))
-      with (([] : path, CNode) :: idx_items items_j 0 (map (convert_value [1; 2; 3]) (x :: r))).
+    change (items_j (JList (map (convert_value [1; 2; 3; 4; 5]) (x :: r))))
+      with (([] : path, CNode) :: idx_items items_j 0 (map (convert_value [1; 2; 3; 4; 5]) (x :: r))).
     rewrite idx_items_map. f_equal. apply idx_items_ext. exact HF.
   - (* map *)
     cbn [convert_value memb existsb N.eqb Pos.eqb orb]. cbn [nodup_v] in Hn. apply andb_true_iff in Hn as [Hk Hv].
@@ -281,17 +284,84 @@ Proof.
   - rewrite map_app, E2. destruct (d_meta d); exact Hk.
 Qed.
 
+(* ---------------------------------------------------------------- native (serialisable) dict ---- *)
+(* Since repair 88905cd NO AST object survives _ast_to_dict: the tree handed to json.dumps / yaml.dump is made of
+   dict / list / str / number / bool / None only -- for EVERY document (sections, duplicates, targets included).
+   This is what makes `json.dumps(data)` in EjectTool.execute total (C20) and the YAML view safe_load-able. *)
+Lemma native_dict_set k v d : native_j v = true -> native_dict d = true -> native_dict (dict_set k v d) = true.
+Proof.
+  unfold native_dict. intros Hv. induction d as [|[k' v'] r IH]; cbn [dict_set forallb snd]; intro H.
+  - rewrite Hv. reflexivity.
+  - apply andb_true_iff in H as [H1 H2]. destruct (str_eqb k k'); cbn [forallb snd].
+    + rewrite Hv. exact H2.
+    + rewrite H1. cbn. apply IH. exact H2.
+Qed.
+Lemma native_dict_of_acc l : forall acc, native_dict acc = true -> forallb (fun kv => native_j (snd kv)) l = true ->
+  native_dict (fold_left (fun d kv => dict_set (fst kv) (snd kv) d) l acc) = true.
+Proof.
+  induction l as [|[k v] r IH]; intros acc Ha Hl; cbn [fold_left]; [exact Ha|].
+  cbn [forallb snd fst] in *. apply andb_true_iff in Hl as [H1 H2]. apply IH; [|exact H2]. apply native_dict_set; assumption.
+Qed.
+Lemma native_dict_of l : forallb (fun kv => native_j (snd kv)) l = true -> native_dict (dict_of l) = true.
+Proof. intro H. unfold dict_of. apply native_dict_of_acc; [reflexivity|exact H]. Qed.
+Lemma native_jmap_dict_of l : forallb (fun kv => native_j (snd kv)) l = true -> native_j (JMap (dict_of l)) = true.
+Proof. intro H. exact (native_dict_of l H). Qed.
+
+Lemma zone_field_native e c t f : native_j (zone_field e c t f) = true.
+Proof.
+  unfold zone_field. destruct (str_eqb e e_True); [reflexivity|]. destruct (str_eqb e e_content); [reflexivity|].
+  destruct (str_eqb e e_info_tag); [destruct t; reflexivity|]. destruct (str_eqb e e_fence); reflexivity.
+Qed.
+Lemma zone_export_native c t f : native_j (zone_export c t f) = true.
+Proof.
+  unfold zone_export. apply native_jmap_dict_of. induction convert_zone_keys as [|ke r IH]; [reflexivity|].
+  cbn [map forallb snd]. rewrite zone_field_native. exact IH.
+Qed.
+
+Lemma convert_value_native v : native_j (convert_value convert_value_classes v) = true.
+Proof.
+  rewrite convert_value_classes_pin.
+  induction v using value_ind'; try reflexivity.
+  - (* list *)
+    cbn [convert_value memb existsb N.eqb Pos.eqb orb native_j].
+    induction H as [|x r Hx Hr IH]; [reflexivity|]. cbn [map forallb]. rewrite Hx. exact IH.
+  - (* map / nested META dict *)
+    cbn [convert_value memb existsb N.eqb Pos.eqb orb]. apply native_jmap_dict_of.
+    induction H as [|x r Hx Hr IH]; [reflexivity|]. cbn [map forallb snd]. rewrite Hx. exact IH.
+  - (* zone *)
+    cbn [convert_value memb existsb N.eqb Pos.eqb orb]. apply zone_export_native.
+Qed.
+
+Lemma forallb_app_true {A} (f : A -> bool) a b : forallb f a = true -> forallb f b = true -> forallb f (a ++ b) = true.
+Proof. intros Ha Hb. rewrite forallb_app, Ha, Hb. reflexivity. Qed.
+
+Lemma convert_entry_native n : forallb (fun kv => native_j (snd kv)) (convert_entry convert_value_classes n) = true.
+Proof.
+  induction n using node_ind'; cbn [convert_entry]; try reflexivity.
+  - destruct (memb 1 convert_node_classes); [|reflexivity]. cbn [forallb snd]. rewrite convert_value_native. reflexivity.
+  - destruct (memb 2 convert_node_classes); [|reflexivity]. cbn [forallb snd]. rewrite native_jmap_dict_of; [reflexivity|].
+    induction H as [|x r Hx Hr IH]; [reflexivity|]. cbn [flat_map]. apply forallb_app_true; assumption.
+Qed.
+
+Theorem dict_native d : native_dict (ast_to_dict d) = true.
+Proof.
+  unfold ast_to_dict, ast_to_dict_with. apply native_dict_of. apply forallb_app_true.
+  - destruct (d_meta d) as [|kv m]; [reflexivity|]. cbn [forallb snd]. rewrite native_jmap_dict_of; [reflexivity|].
+    generalize (kv :: m). intro l. induction l as [|x r IH]; [reflexivity|]. cbn [map forallb snd].
+    rewrite convert_value_native. exact IH.
+  - induction (d_sections d) as [|n r IH]; [reflexivity|]. cbn [flat_map]. apply forallb_app_true; [apply convert_entry_native|exact IH].
+Qed.
+
 (* ---------------------------------------------------------------- markdown ---- *)
 Section Md.
-  Variable hs : str -> str.
   Fixpoint assign_pairs (n : node) : list (str * str) :=
     match n with
-    | NAssign k v => [(k, fmt_md hs v)]
+    | NAssign k v => [(k, fmt_md v)]
     | NBlock _ _ ch => flat_map assign_pairs ch
     | NSection _ _ _ _ | NComment _ => []
     end.
   Definition doc_pairs (d : doc) : list (str * str) :=
-    map (fun kv => (fst kv, fmt_md hs (snd kv))) (d_meta d) ++ flat_map assign_pairs (d_sections d).
+    map (fun kv => (fst kv, fmt_md (snd kv))) (d_meta d) ++ flat_map assign_pairs (d_sections d).
 
   Lemma md_pairs_app a b : md_pairs (a ++ b) = md_pairs a ++ md_pairs b.
   Proof. apply flat_map_app. Qed.
@@ -300,18 +370,18 @@ Section Md.
     Forall (fun x => md_pairs (f x) = g x) l -> md_pairs (flat_map f l) = flat_map g l.
   Proof. induction 1; cbn [flat_map]; [reflexivity|]. rewrite md_pairs_app. congruence. Qed.
 
-  Lemma block_md_pairs n : forall lv, md_pairs (block_md hs lv n) = assign_pairs n.
+  Lemma block_md_pairs n : forall lv, md_pairs (block_md lv n) = assign_pairs n.
   Proof.
     induction n using node_ind'; intro lv; cbn [block_md assign_pairs]; try reflexivity.
-    change (md_pairs (MHead lv k :: MBlank :: flat_map (block_md hs (S lv)) ch))
-      with (md_pairs (flat_map (block_md hs (S lv)) ch)).
+    change (md_pairs (MHead lv k :: MBlank :: flat_map (block_md (S lv)) ch))
+      with (md_pairs (flat_map (block_md (S lv)) ch)).
     apply md_pairs_flat. rewrite Forall_forall in *. intros x Hx. apply H; exact Hx.
   Qed.
 
-  Lemma top_md_pairs n : md_pairs (top_md hs n) = assign_pairs n.
+  Lemma top_md_pairs n : md_pairs (top_md n) = assign_pairs n.
   Proof.
     destruct n; cbn [top_md assign_pairs]; try reflexivity.
-    change (md_pairs (MHead 2 k :: MBlank :: flat_map (block_md hs 3) ch)) with (md_pairs (flat_map (block_md hs 3) ch)).
+    change (md_pairs (MHead 2 k :: MBlank :: flat_map (block_md 3) ch)) with (md_pairs (flat_map (block_md 3) ch)).
     apply md_pairs_flat. rewrite Forall_forall. intros x _. apply block_md_pairs.
   Qed.
 
@@ -321,7 +391,7 @@ Section Md.
   Lemma md_pairs_blank x : md_pairs (MBlank :: x) = md_pairs x. Proof. reflexivity. Qed.
   Lemma md_pairs_head lv k x : md_pairs (MHead lv k :: x) = md_pairs x. Proof. reflexivity. Qed.
 
-  Theorem markdown_pairs d : md_pairs (md_struct hs d) = doc_pairs d.
+  Theorem markdown_pairs d : md_pairs (md_struct d) = doc_pairs d.
   Proof.
     unfold md_struct, doc_pairs. rewrite md_pairs_title, md_pairs_blank, md_pairs_app. f_equal.
     - destruct (d_meta d) as [|kv m]; [reflexivity|].
@@ -335,8 +405,8 @@ End Md.
 (* ---------------------------------------------------------------- refuted full statements ---- *)
 Definition dict_complete_full : Prop := forall d it, In it (items_doc d) -> In it (items_dict (ast_to_dict d)).
 Definition markdown_complete_full : Prop :=
-  forall hs d k v, In (NAssign k v) (d_sections d) \/ (exists i s a ch, In (NSection i s a ch) (d_sections d) /\ In (NAssign k v) ch) ->
-    In (k, fmt_md hs v) (md_pairs (md_struct hs d)).
+  forall d k v, In (NAssign k v) (d_sections d) \/ (exists i s a ch, In (NSection i s a ch) (d_sections d) /\ In (NAssign k v) ch) ->
+    In (k, fmt_md v) (md_pairs (md_struct d)).
 
 Definition s_K : str := [75].
 Definition s_S : str := [83].
@@ -352,7 +422,7 @@ Lemma dict_complete_refuted_section_dropped :
   project m_canonical wit_section = (wit_section, false, []) /\
   In ([PSec [49] s_S; PKey s_K], CLeaf (LfStr s_v)) (items_doc wit_section) /\
   items_dict (ast_to_dict wit_section) = [] /\
-  (forall hs, md_pairs (md_struct hs wit_section) = []).
+  md_pairs (md_struct wit_section) = [].
 Proof. repeat split. vm_compute. tauto. Qed.
 
 Lemma dict_complete_refuted_duplicate_key :
@@ -378,7 +448,7 @@ Qed.
 
 Lemma markdown_complete_full_refuted : ~ markdown_complete_full.
 Proof.
-  intro H. specialize (H (fun x => x) wit_section s_K (VStr s_v)).
+  intro H. specialize (H wit_section s_K (VStr s_v)).
   destruct dict_complete_refuted_section_dropped as (_ & _ & _ & Hm). rewrite Hm in H. apply H.
   right. exists [49], s_S, None, [NAssign s_K (VStr s_v)]. split; left; reflexivity.
 Qed.
@@ -398,3 +468,40 @@ Proof. vm_compute. reflexivity. Qed.
 Lemma cli_zone_not_exported c t f :
   cli_ast_to_dict (mk_doc [68] [] [NAssign s_K (VZone c t f)]) = [(s_K, JZoneObj c t f)].
 Proof. reflexivity. Qed.
+
+(* ... and no holographic case either (cli/main.py was NOT touched by repair 88905cd): the object reaches the
+   serialiser, the dict is not native and not complete (the item is an object, not the pattern text) *)
+Lemma cli_holo_not_exported r :
+  cli_ast_to_dict (mk_doc [68] [] [NAssign s_K (VHolo r)]) = [(s_K, JHolo r)] /\
+  native_dict (cli_ast_to_dict (mk_doc [68] [] [NAssign s_K (VHolo r)])) = false /\
+  ~ In ([PKey s_K], CLeaf (LfStr r)) (items_dict (cli_ast_to_dict (mk_doc [68] [] [NAssign s_K (VHolo r)]))).
+Proof.
+  repeat split. cbn. intros [H|[]]. discriminate H.
+Qed.
+
+(* ---------------------------------------------------------------- regressions for repair 88905cd ---- *)
+(* former finding C14-holographic-python-dump / C20-eject-json-holographic / -nested-meta / C06-eject-markdown-object-repr:
+   the witnesses, now on the repaired converters (closed terms, vm_compute) *)
+Definition raw_holo : str := [91; 34; 101; 120; 34; 8743; 82; 69; 81; 8594; 167; 83; 69; 76; 70; 93].   (* ["ex"∧REQ→§SELF] *)
+(* ===D===  H::["ex"∧REQ→§SELF] *)
+Definition wit_holo : doc := mk_doc [68] [] [NAssign [72] (VHolo raw_holo)].
+(* ===D===  META:  N:  L::[a,b]  H::[..]   K::[[..],[k::[..]]] : holographic values in a nested META block, in a list,
+   in an inline map inside a list *)
+Definition wit_nested_meta : doc :=
+  mk_doc [68] [([78], VMap [([76], VList [VStr [97]; VStr [98]]); ([72], VHolo raw_holo)])]
+    [NAssign s_K (VList [VHolo raw_holo; VMap [([107], VHolo raw_holo)]])].
+
+Example regression_holo_exported_as_text :
+  ast_to_dict wit_holo = [([72], JStr raw_holo)] /\
+  items_dict (ast_to_dict wit_holo) = items_doc wit_holo /\
+  md_pairs (md_struct wit_holo) = [([72], raw_holo)].
+Proof. vm_compute. repeat split. Qed.
+
+Example regression_nested_meta_converted :
+  ast_to_dict wit_nested_meta =
+    [(s_META, JMap [([78], JMap [([76], JList [JStr [97]; JStr [98]]); ([72], JStr raw_holo)])]);
+     (s_K, JList [JStr raw_holo; JMap [([107], JStr raw_holo)]])] /\
+  wf_doc wit_nested_meta = true /\
+  items_dict (ast_to_dict wit_nested_meta) = items_doc wit_nested_meta /\
+  native_dict (ast_to_dict wit_nested_meta) = true.
+Proof. vm_compute. repeat split. Qed.
